@@ -741,7 +741,7 @@ func init() {
 	Register(&Prop{ID: "C13", Check: checkC13, Replay: judgeC13, Components: compB,
 		Rule: "engine B only (real git semantics are the point): generated repositories with reflogs, replace references for commits / trees / blobs and graft lines that add, drop or redirect parents; the real binary is started at the top of the work tree, in a subdirectory, inside .git, with GIT_DIR absolute and relative from an unrelated directory, on a bare / non-bare twin, in a linked worktree, in a subdirectory entered through a symbolic link (with and without a relative GIT_DIR containing ..) and as `git -C <dir> sizer`; one world in three spells out core.useReplaceRefs=true in one of four configuration scopes; stdout must be byte-identical across modes and the numbers equal the model evaluated on the stored graph (refs/replace/* being ordinary references); a real `git clone --depth 1` of the repository must be refused with an error and no report. non-trivial: the world carries replace refs or grafts; distinct by scenario hash"})
 	Register(&Prop{ID: "C17", Check: checkC17, Replay: judgeC17, Components: compB,
-		Rule: "generated repositories (loose / packed-refs / repacked / bitmapped pack + loose; one in five with a flat directory of 1000-1900 files changed in successive commits, one in five with a chain of 100-180 commits; reflogs, an index and untracked files in the work tree) x command lines of every format; the real -race binary runs at GOMAXPROCS 1 and 16, the plain binary 12 more times at GOMAXPROCS 2/3/4/5/8/16 with proxy re-chunking and delays on every other run (two thirds of the worlds carry deliberate ties: equally large maximal blobs side by side, equal tag depths), then the -race in-process engine runs 3 plan variants (same delivery order, different chunking / delays / pipe capacities / flush policies) and 8 goroutine schedules (runtime.Gosched counts at yield points compiled into copies of git-sizer's sources before every lock, channel operation and after every go statement): stdout byte-identical across all runs, any race-detector report is a violation, and a digest of every path of the repository (type, mode, size, SHA-256) and of $HOME is unchanged afterwards. Goroutine choice inside the real binary is sampled; inside the in-process engine it is decided by the schedule at GOMAXPROCS=1. distinct by scenario hash"})
+		Rule: "generated repositories (loose / packed-refs / repacked / bitmapped pack + loose; one in five with a flat directory of 1000-1900 files changed in successive commits, one in five with a chain of 100-180 commits; reflogs, an index and untracked files in the work tree) x command lines of every format; the real -race binary runs at GOMAXPROCS 1 and 16, the plain binary 12 more times at GOMAXPROCS 2/3/4/5/8/16 with proxy re-chunking and delays on every other run (two thirds of the worlds carry deliberate ties: equally large maximal blobs side by side, equal tag depths), then the -race in-process engine runs 3 plan variants (same delivery order, different chunking / delays / pipe capacities / flush policies) and 8 goroutine schedules (yield counts at yield points compiled into copies of git-sizer's sources before every lock, channel operation and after every go statement): stdout byte-identical across all runs, any race-detector report is a violation, and a digest of every path of the repository (type, mode, size, SHA-256) and of $HOME is unchanged afterwards. Goroutine choice inside the real binary is sampled; inside the in-process engine it is decided by the schedule at GOMAXPROCS=1. distinct by scenario hash"})
 }
 
 // groupsUsable: every regexp compiles and no leaf group is rule-less
